@@ -55,12 +55,12 @@ impl Bulk {
 	}
 }
 
-pub fn run_bulk(ctx: &Ctx, rep: &mut Report, case_seed: u64, variant: u64) {
+pub fn run_bulk(ctx: &Ctx, rep: &mut Report, prop: &str, case_seed: u64, variant: u64) {
 	let mut rng = Rng::new(case_seed);
-	let rc = (variant / 16) % 3 == 2;
+	let rc = prop != "C01" && (variant / 16) % 3 == 2;
 	let mut cfg = DbCfg::new(vec![col(false, true, rc, rc, CompressionType::NoCompression)]);
 	cfg.salt = Some([0u8; 32]);
-	let desc = format!("C09 bulk case_seed={} variant={} cfg=[{}]", case_seed, variant, cfg.describe());
+	let desc = format!("{} bulk case_seed={} variant={} cfg=[{}]", prop, case_seed, variant, cfg.describe());
 	ctx.mark(&desc);
 	let dir = Scratch::new("bulk");
 	let opts = cfg.options(&dir.path.join("db"));
@@ -264,7 +264,7 @@ pub fn run_bulk(ctx: &Ctx, rep: &mut Report, case_seed: u64, variant: u64) {
 	};
 	let n = b.trace.len();
 	rep.violation(
-		format!("scenario=C09;{}", sig),
+		format!("scenario={};{}", prop, sig),
 		format!("{}\n  after step {}: {}", detail, n, b.trace.last().cloned().unwrap_or_default()),
 		J::obj()
 			.set("engine", J::s("stepper"))
